@@ -19,6 +19,10 @@ CLAIMED = {
    tech="TLA+ spec EcsCache.tla (two stores, clients with family/location/ECS option kinds, subnet-dependent upstream) model-checked by TLC with two sanity configs; histories through the real NewHandlers stack with the ECS cache and a recording upstream; per-event validation by TLC (TraceEcsCache.tla)",
    text="TLC explores every history of queries from clients of 2-3 locations x 2 families x 4 ECS option kinds over scoped and unscoped questions and checks that the forwarded subnet is the coarse one or the zero prefix, that opted-out clients get /0 and never a scoped answer, that an answer scoped to a subnet is only served to clients mapped to that subnet and family, echo-iff-valid and FORMERR for malformed options. The real stack (ratelimitmw ECS/location parsing + ecscache) is driven with 7 clients whose address, supplied subnet and GeoIP subnet are pairwise different; the upstream fake records the option it receives and encodes the subnet in scoped answers so that every response reveals which subnet it was made for.",
    note=TRUST + "fake GeoIP table; C05 is claimed for cache.type ecs only; when the option's own location is unknown the client's location or the zero prefix are both accepted.", ref="6 C05"),
+ "C09": dict(
+   tech="TLA+ spec RateLimit.tla (sliding-window-log contract + implementation-shaped ring in an expiring map, refinement invariant ExactWindow) model-checked by TLC with a sanity config; exhaustive timestamp sequences on the real RequestCounter and TLC-generated / seeded event sequences on the real Backoff and ratelimitmw under a virtual clock; decisions validated by TLC (TraceRateLimit.tla)",
+   text="TLC checks over all event sequences within the bounds that the ring-based implementation decides exactly like the sliding-window log (no early drop, no late pass), that buckets are isolated, allow-listed clients are never dropped and ANY is always dropped; the sanity config shows the pinned tree's expiring-map defect. On the real code: every non-decreasing timestamp sequence of length 6-8 over a 6-tick horizon for L, I in 1..3 on RequestCounter.Add; sequences with equal timestamps, gaps of I-1/I/I+1, response sizes of 0-2 estimates, ANY, an allow-listed address and addresses sharing a subnet key on Backoff; and requests through the real ratelimitmw with the real Backoff and profiles carrying their own limiter (inside / outside their client subnets), where a drop must also be silent and stop the pipeline.",
+   note=TRUST + "virtual clock by overlay rewrite of backoff.go, agd/ratelimit.go and patrickmn/go-cache (fails closed); the back-off clause (hit record lives backoff_duration from its first hit) is taken from the code because the statement leaves its timing open; refuse-ANY is treated as part of the global limiter (a profile's own limiter counts ANY like any other query).", ref="6 C09"),
  "C10": dict(
    tech="TLA+ decision table and pipeline model Access.tla checked exhaustively by TLC (+4 defect-variant sanity configs); per-line trace validation (TraceAccess.tla) of the real access.Global / access.DefaultProfile and of requests through real dnssvc.NewHandlers handlers with recording fakes",
    text="TLC enumerates all 576 abstract access vectors x pipeline stages and checks blocked <=> contract, blocked leaves no trace, allow overrides block, exceptions unblock, unblocked is processed; every realisable vector (294) is concretised (overlapping prefixes incl. /0, /31, /32, IPv6, v4-mapped and zoned clients, ASNs, rule variants, mixed case) and validated against the real code both at unit level and through the full handler stack, where the effect set (written, resolved, filtered, cached, logged, billed, rulestat, dnsdb) is observed with recording fakes.",
